@@ -116,17 +116,17 @@ Proof.
   - (* Mint *)
     destruct (String.eqb d denom) eqn:Ed.
     + apply String.eqb_eq in Ed. subst. left. left. unfold coin_ok in *. conds.
-      exists s0, dv, amt, to. rewrite upd_same. repeat split; auto.
+      exists s0, dv, amt, to. simpl. rewrite upd_same. repeat split; auto.
     + apply String.eqb_neq in Ed. rewrite upd_other in Hne by auto. congruence.
   - (* Burn *)
     destruct (String.eqb d denom) eqn:Ed.
     + apply String.eqb_eq in Ed. subst. left. right. unfold coin_ok in *. conds.
-      exists s0, dv, amt, from. rewrite upd_same. repeat split; auto.
+      exists s0, dv, amt, from. simpl. rewrite upd_same. repeat split; auto.
     + apply String.eqb_neq in Ed. rewrite upd_other in Hne by auto. congruence.
   - (* BurnNative *)
     destruct (String.eqb d denom) eqn:Ed.
     + apply String.eqb_eq in Ed. subst. right. unfold coin_ok in *. conds.
-      exists sender, dv, amt. rewrite upd_same, upd2_same. repeat split; auto.
+      exists sender, dv, amt. simpl. rewrite upd_same, upd2_same. repeat split; auto.
     + apply String.eqb_neq in Ed. rewrite upd_other in Hne by auto. congruence.
 Qed.
 
@@ -165,13 +165,13 @@ Proof.
     + apply String.eqb_eq in Ed. subst. right. exists sender, sub. rewrite upd_same.
       repeat split; auto.
       * destruct (admins s (tf_denom sender sub)) eqn:Ea; auto.
-        assert (meta s (tf_denom sender sub) = true) by (apply Hi; congruence).
-        match goal with Hn : negb _ = true |- _ => rewrite H0 in Hn; discriminate Hn end.
+        assert (Hm : meta s (tf_denom sender sub) = true) by (apply Hi; congruence).
+        match goal with Hn : negb _ = true |- _ => rewrite Hm in Hn; discriminate Hn end.
       * apply parse_tf_denom; auto.
     + apply String.eqb_neq in Ed. rewrite upd_other in Hne by auto. congruence.
   - (* ChangeAdmin *)
     destruct (String.eqb d denom) eqn:Ed.
-    + apply String.eqb_eq in Ed. subst. left. exists s0, new_admin, na_valid. rewrite upd_same. auto.
+    + apply String.eqb_eq in Ed. subst. left. do 3 eexists. rewrite upd_same. split; [reflexivity|]. split; auto.
     + apply String.eqb_neq in Ed. rewrite upd_other in Hne by auto. congruence.
 Qed.
 
@@ -246,13 +246,13 @@ Proof.
     try (exists ""; split; [reflexivity | lia]).
   - exists (resolve to sender). split.
     + intros a' Ha. apply upd2_other. auto.
-    + unfold upd2, upd. rewrite String.eqb_refl. simpl. destruct (String.eqb d denom); lia.
+    + unfold upd2, upd. rewrite String.eqb_refl. simpl. destruct (String.eqb d denom) eqn:Ed; [apply String.eqb_eq in Ed; subst|]; lia.
   - exists (resolve from sender). split.
     + intros a' Ha. apply upd2_other. auto.
-    + unfold upd2, upd. rewrite String.eqb_refl. simpl. destruct (String.eqb d denom); lia.
+    + unfold upd2, upd. rewrite String.eqb_refl. simpl. destruct (String.eqb d denom) eqn:Ed; [apply String.eqb_eq in Ed; subst|]; lia.
   - exists sender. split.
     + intros a' Ha. apply upd2_other. auto.
-    + unfold upd2, upd. rewrite String.eqb_refl. simpl. destruct (String.eqb d denom); lia.
+    + unfold upd2, upd. rewrite String.eqb_refl. simpl. destruct (String.eqb d denom) eqn:Ed; [apply String.eqb_eq in Ed; subst|]; lia.
 Qed.
 
 (** whose balance can go down: the burn-from account of an admin-signed Burn, or the signer of a
@@ -428,9 +428,8 @@ Proof.
   unfold step_core. split; [discriminate|]. split; [|split; [|split]].
   - intros d v' Hin. apply in_map_key in Hin as [Hin ->]. exists (supply s d).
     split; [apply (lookup_map (supply s)); auto|]. intro Hne. split; auto.
-    simpl. rewrite (lookup_map (admins s)) by auto.
     destruct (supply_step _ _ _ _ _ E Hne) as [[(sd & dv & amt & to & -> & Ha & Hs & Hp & Hv)|(sd & dv & amt & fr & -> & Ha & Hs & Hp & Hv)]|(sd & dv & amt & -> & Hs & Hp & _)];
-      simpl; repeat split; auto; try congruence. discriminate.
+      simpl; rewrite ?(lookup_map (admins s)) by auto; repeat split; auto; try congruence.
   - intros d a' Hin. apply in_map_key in Hin as [Hin ->]. exists (admins s d).
     split; [apply (lookup_map (admins s)); auto|]. intro Hne. split; auto.
     destruct (admin_step _ _ _ _ _ Hi E Hne) as [(sd & new & nv & -> & Ha & Hn)|(sd & sub & -> & Hd & Ha & Hn & Hp)]; simpl; auto.
